@@ -73,7 +73,7 @@ Definition pass_test (inp : list Z) (r : prule) (pos : Z) : option pmatch :=
   | Some (em, sr, er) =>
       let sr' := if sr =? -1 then pos else sr in
       let er' := if sr =? -1 then em else er in
-      if (sr' <? pos) || (er' =? -1) then None else Some (mkPM pos sr' er' em)
+      if (sr' <? pos) || (er' =? -1) || (er' <? sr') || (em <? er') then None else Some (mkPM pos sr' er' em)
   end.
 
 (* ---------------------------------------------------------------- the action (forward) *)
@@ -198,18 +198,19 @@ Inductive dresult :=
 | DUnsupported
 | DOutOfFuel.
 
+(* the rule lists hold the rules of ONE direction; the two table-wide flags are set by rules of
+   either direction (table->corrections, table->numPasses) *)
 Record ptable := mkPT {
   pt_main : table;
   pt_correct : list prule;
   pt_pass2 : list prule;
   pt_pass3 : list prule;
-  pt_pass4 : list prule
+  pt_pass4 : list prule;
+  pt_corr : bool;         (* the table has a correct rule *)
+  pt_np : Z               (* highest pass number that has a rule (1 if none) *)
 }.
 
-Definition num_passes (pt : ptable) : Z :=
-  match pt_pass4 pt with _ :: _ => 4 | [] =>
-  match pt_pass3 pt with _ :: _ => 3 | [] =>
-  match pt_pass2 pt with _ :: _ => 2 | [] => 1 end end end.
+Definition num_passes (pt : ptable) : Z := pt_np pt.
 
 (* cells of pass stages are "space" when the cell's definitions say so *)
 Definition cell_space (t : table) (d : Z) : bool :=
@@ -235,10 +236,8 @@ Definition forward (pt : ptable) (mode : Z) (inp : list Z) (cap : Z) : dresult :
   let t := pt_main pt in
   (* stage 0: corrections *)
   let s0 :=
-    match pt_correct pt with
-    | [] => Some None
-    | rules => after_stage None (run_stage KCorrect rules (fun _ => false) inp cap)
-    end in
+    if pt_corr pt then after_stage None (run_stage KCorrect (pt_correct pt) (fun _ => false) inp cap)
+    else Some None in
   match s0 with
   | None => DOutOfFuel
   | Some acc0 =>
